@@ -28,7 +28,7 @@ m = {"version": 1, "setup_cmd": "./setup.sh",
      "engines": [{"name": "coq", "path": "coq", "serves_properties": [c["property_id"] for c in checks],
                   "kind_free_text": "Coq 8.16.1 development: executable Gallina models (Model/), lemmas (Proof/), property theorems (Props/), evaluated on harness observations (Run/)"}],
      "checks": checks,
-     "notes": "Every check: full .vo build of coq/, fresh coqc of coq/Props/<id>.v (Print Assumptions captured), Go harness rebuilt from /repo's working tree, model evaluated by coqc/vm_compute on the observed cases, independent oracle on every case. See DESIGN.md.",
+     "notes": "Every check: full .vo build of coq/, fresh coqc of coq/Props/<id>.v (Print Assumptions captured), Go harness rebuilt from /repo's working tree, model evaluated by coqc/vm_compute on the observed cases, independent oracle on every case. Also per run: a source audit of the Coq development (tools/audit.py: no Admitted/Axiom/Parameter, no Variable outside a Section, no kernel switch) and an allow-list on Print Assumptions; composition theorems linking the property models (coq/Props/Compose*.v, DESIGN.md 10.6) re-checked by the checks they are attached to; pure functions and literal tables of /repo re-translated to Gallina by harness/extract and re-proved equal to the models' (lib/extractlib.py, tools/notes/Translator.md). See DESIGN.md.",
      "not_applicable": na}
 json.dump(m, open(os.path.join(HERE, "MANIFEST.json"), "w"), indent=1)
 print("claimed:", [c["property_id"] for c in checks])
